@@ -34,6 +34,22 @@ class Token:
         return f"Token{self.key}"
 
 
+class CallableObject:
+    """A call 'function' that is an object with __call__ (optionally with a __repr__ that raises)."""
+
+    def __init__(self, f, bad_repr):
+        self.f = f
+        self.bad_repr = bad_repr
+
+    def __call__(self, *args, **kwargs):
+        return self.f(*args, **kwargs)
+
+    def __repr__(self):
+        if self.bad_repr:
+            raise RuntimeError("__repr__ of the callable fails")
+        return f"CallableObject({self.f.__name__})"
+
+
 class BuildMismatch(Exception):
     pass
 
@@ -316,6 +332,13 @@ class World:
 
         fn.__module__ = "harness"
         fn.__qualname__ = fn.__name__ = nd.get("fname") or f"f{i % 3}"
+        kind = nd.get("fnkind")
+        if kind == "partial":
+            import functools
+
+            return functools.partial(fn)
+        if kind in ("obj", "obj_badrepr"):
+            return CallableObject(fn, kind == "obj_badrepr")
         return fn
 
     # -- event log ----------------------------------------------------------
